@@ -10,8 +10,8 @@ sys.path.insert(0, os.path.dirname(os.path.abspath(__file__)))
 import vlib, pc
 
 SCN_FOR = {
-    "C01": {"quick": ["A", "G"], "thorough": ["A", "B", "D", "E", "F", "G"]},
-    "C02": {"quick": ["B", "C"], "thorough": ["A", "B", "C", "E", "F"]},
+    "C01": {"quick": ["A", "G", "J"], "thorough": ["A", "B", "D", "E", "F", "G", "J"]},
+    "C02": {"quick": ["B", "C", "H", "I", "J"], "thorough": ["A", "B", "C", "E", "F", "H", "I", "J"]},
     "C03": {"quick": ["B", "E"], "thorough": ["B", "C", "E", "F"]},
     "C05": {"quick": ["A", "D", "E", "G"], "thorough": ["A", "B", "D", "E", "F", "G"]},
 }
